@@ -135,8 +135,10 @@ Definition p_css_styles (s : list Z) : option (list Z * list Z) :=
               end
   | None => None
   end.
+(** [-space() * ident() ...]: pom's unary minus is a look-ahead that consumes nothing, so
+    the identifier must start at once *)
 Definition p_class_and_style (s : list Z) : option ((list Z * list Z) * list Z) :=
-  match p_ident (p_space s) with
+  match p_ident s with
   | Some (name, s1) =>
       match p_sym 61 (p_space s1) with
       | Some s2 => match p_css_styles (p_space s2) with
